@@ -64,6 +64,12 @@ func NewSOD(data []byte) (*SOD, error) {
 
 		sdBytes, err = tlv.UnwrapTag(SODTag, out.RawData)
 		if err != nil {
+			// the root tag may itself use indefinite-length encoding, so retry after a TLV Decode/Encode cycle
+			if normalised, tmpErr := tlv.DecodeEncode(out.RawData); tmpErr == nil {
+				sdBytes, err = tlv.UnwrapTag(SODTag, normalised)
+			}
+		}
+		if err != nil {
 			return nil, fmt.Errorf("[NewSOD] UnwrapTag error: %w", err)
 		}
 
